@@ -54,11 +54,30 @@ def _width(line):
     return max(vis, len(line))
 
 
-def check(src, tokens):
+class _Fails(set):
+    """Set of failure classes that also remembers (class, line, column) of every failing token."""
+
+    def __init__(self):
+        super().__init__()
+        self.fine = []
+        self.cur = (0, 0)
+
+    def add(self, item):
+        self.fine.append((item, self.cur[0], self.cur[1]))
+        super().add(item)
+
+
+def check_detailed(src, tokens):
+    """-> (sorted tuple of failure classes, list of (class, line, column) per failing token)"""
+    res = check(src, tokens, _want_fine=True)
+    return res
+
+
+def check(src, tokens, _want_fine=False):
     """Return a sorted tuple of failure classes (empty = property holds on this stream)."""
     lines = src.split("\n")
     nlines = len(lines)
-    fails = set()
+    fails = _Fails()
     last_line = 0
     list_stack = []
     cont_depth = 0  # number of open containers (for classifying the known systematic shape)
@@ -78,6 +97,7 @@ def check(src, tokens):
         ln, col = t.line_number, t.column_number
         if ln == 0 and col == 0:
             continue
+        fails.cur = (ln, col)
         if name in ("ulist", "olist"):
             list_stack.append(name)
         if name in ("ulist", "olist", "block-quote"):
@@ -129,6 +149,8 @@ def check(src, tokens):
                 got = _chars_at(lines[oln - 1], ocol)
                 if not any(ch not in " \t" for ch in got):
                     fails.add("anchor:setext-text")
+    if _want_fine:
+        return tuple(sorted(fails)), fails.fine
     return tuple(sorted(fails))
 
 
